@@ -1,6 +1,7 @@
 package main
 
 import (
+	"bytes"
 	"crypto"
 	"crypto/ecdsa"
 	"crypto/ed25519"
@@ -64,6 +65,11 @@ func publicKeyOfKind(kind string) crypto.PublicKey {
 	case "offcurve":
 		k := keyFor("p256-a").(*ecdsa.PrivateKey)
 		return &ecdsa.PublicKey{Curve: elliptic.P256(), X: new(big.Int).Set(k.X), Y: new(big.Int).Add(k.Y, big.NewInt(1))}
+	case "offcurve2", "offcurve2-p384", "offcurve2-p521":
+		// same x and same parity of y as the valid fixture key of that curve
+		name := map[string]string{"offcurve2": "p256", "offcurve2-p384": "p384", "offcurve2-p521": "p521"}[kind]
+		k := signerKeyOfKind(name).(*ecdsa.PrivateKey)
+		return &ecdsa.PublicKey{Curve: k.Curve, X: new(big.Int).Set(k.X), Y: new(big.Int).Add(k.Y, big.NewInt(2))}
 	case "infinity":
 		return &ecdsa.PublicKey{Curve: elliptic.P256(), X: new(big.Int), Y: new(big.Int)}
 	case "unreduced":
@@ -148,7 +154,8 @@ func init() {
 		if str(c["keykind"]) == "opaque" {
 			sk = opaqueSigner{key}
 		}
-		ev["sign"], ev["verify"], ev["stdv"] = "n/a", "n/a", false
+		ev["sign"], ev["verify"], ev["stdv"], ev["digestkept"] = "n/a", "n/a", false, true
+		var held []byte // the digest the caller holds (in a larger buffer, as h.Sum(buf[:0]) leaves it)
 		if p := guard(func() {
 			s, err := cose.NewSigner(cose.Algorithm(alg), sk)
 			if err != nil {
@@ -169,7 +176,10 @@ func init() {
 					ev["sign"] = "no-DigestSigner"
 					return
 				}
-				sig, err = ds.SignDigest(rand.Reader, hashBy(str(c["signhash"]), msg))
+				d := hashBy(str(c["signhash"]), msg)
+				held = append(make([]byte, 0, 512), d...)
+				sig, err = ds.SignDigest(rand.Reader, held)
+				ev["digestkept"] = bytes.Equal(held, d)
 			}
 			ev["sign"] = errClass(err)
 			if err != nil {
@@ -184,7 +194,11 @@ func init() {
 					ev["verify"] = "no-DigestVerifier"
 					return
 				}
-				ev["verify"] = errClass(dv.VerifyDigest(hashBy(str(c["verifyhash"]), msg), sig))
+				vd := hashBy(str(c["verifyhash"]), msg)
+				if held != nil && str(c["verifyhash"]) == str(c["signhash"]) {
+					vd = held // the caller verifies with the digest variable it signed with
+				}
+				ev["verify"] = errClass(dv.VerifyDigest(vd, sig))
 			}
 		}); p != "" {
 			ev["verify"] = "panic"
